@@ -86,24 +86,3 @@ pub fn silence_panics() {
     panic::set_hook(Box::new(|_| {}));
 }
 
-/// runs `f` with file descriptor 1 redirected to /dev/null (liblinear prints its progress with C stdio)
-pub fn silence_stdout<T>(f: impl FnOnce() -> T) -> T {
-    use std::io::Write;
-    let _ = std::io::stdout().flush();
-    unsafe {
-        libc::fflush(std::ptr::null_mut());
-        let saved = libc::dup(1);
-        let saved2 = libc::dup(2);
-        let null = libc::open(c"/dev/null".as_ptr(), libc::O_WRONLY);
-        libc::dup2(null, 1);
-        libc::dup2(null, 2);
-        libc::close(null);
-        let r = f();
-        libc::fflush(std::ptr::null_mut());
-        libc::dup2(saved, 1);
-        libc::dup2(saved2, 2);
-        libc::close(saved);
-        libc::close(saved2);
-        r
-    }
-}
